@@ -93,6 +93,99 @@ def _memo1(f):
 # the symbolic world: one trajectory, its optional cells / neighbour lists / selection, and the definitions
 
 
+NBFILE = "neighbors.dat"
+RN_KEY = "PyMatterSim.neighbors.read_neighbors.read_neighbors"
+
+
+class NbFile:
+    """The neighbour file of a trajectory of T frames with N particles, and what read_neighbors delivers from it.
+
+    File content (uninterpreted, docs/neighbors.md layout `id cn id_1 .. id_cn`, one record = header + N rows, rows in any id order):
+      CNF(p, i)     number of ids listed in record p (p-th frame of the file, in file order) for particle i (file id i + 1)
+      NBF(p, i, t)  t-th listed id minus 1 (zero-based particle index), 0 <= t < CNF(p, i)
+    Delivered array of record p (the clauses C05 proves for the real read_neighbors: coordination-number-column,
+    values-shifted-by-id-origin, zero-padding, width), Nmax = the cap handed to read_neighbors (max_neighbors):
+      nl(p, i, 0) = min(CNF(p, i), Nmax);   nl(p, i, c) = NBF(p, i, c - 1) for 1 <= c <= nl(p, i, 0);   0 beyond
+      width(p)    = 1 + MAXC(p),  MAXC(p) = max_i nl(p, i, 0)  (relational: 0 <= MAXC(p) <= Nmax, nl(p, i, 0) <= MAXC(p) for every row)
+    NL / NLwidth are DEFINED symbols (definitional extension): NL(p, i, c) := delivered(p, i, c), NLwidth(p) := 1 + MAXC(p).
+    Dynamics.__init__ is proved to store exactly NL(n, ., .) as self.neighborlists[n]; the relaxation units take
+    self.neighborlists from the same functions (`nl`, `width`, `nl_array`, `neighborlists`)."""
+
+    def __init__(self, ctx, T, N):
+        I = z3.IntSort()
+        self.T, self.N = T, N
+        self.NLf = z3.Function("NL", I, I, I, I)
+        self.Wf = z3.Function("NLwidth", I, I)
+        self.CNF = z3.Function("CNF", I, I, I)
+        self.NBF = z3.Function("NBF", I, I, I, I)
+        self.MAXC = z3.Function("MAXC", I, I)
+        self.Nmax = ctx.int("max_neighbors")
+
+    # ---- the spec functions shared by __init__ (ensures) and relaxation / sq4 (value of self.neighborlists)
+    def nl(self, n, i, c):
+        return sv.SV(self.NLf(sv.znum(n), sv.znum(i), sv.znum(c)))
+
+    def width(self, n):
+        return sv.SV(self.Wf(sv.znum(n)))
+
+    def nl_array(self, n):
+        return A.new_arr((self.N, self.width(n)), lambda idx: self.nl(n, idx[0], idx[1]), "int", frame=n)
+
+    def neighborlists(self):
+        """value of Dynamics.neighborlists after __init__ with a neighbour file: one delivered array per frame, in file order"""
+        return Ref(cur().alloc(Content("list", A.SeqVal(self.T, self.nl_array))), "list")
+
+    # ---- file level
+    def cnf(self, p, i):
+        return sv.SV(self.CNF(sv.znum(p), sv.znum(i)))
+
+    def nbf(self, p, i, t):
+        return sv.SV(self.NBF(sv.znum(p), sv.znum(i), sv.znum(t)))
+
+    def maxc(self, p):
+        return sv.SV(self.MAXC(sv.znum(p)))
+
+    def delivered(self, p, i, c):
+        """element (i, c) of the array read_neighbors returns for record p (contract of C05)"""
+        cn = sv.minv(self.cnf(p, i), self.Nmax)
+        t = A.simp(sv.sub(c, 1))
+        return sv.ite(sv.cmp("==", c, 0), cn, sv.ite(sv.and_(sv.cmp(">=", t, 0), sv.cmp("<", t, cn)), self.nbf(p, i, t), 0))
+
+    def def_nl(self, p, i, c):
+        return sv.cmp("==", self.nl(p, i, c), self.delivered(p, i, c))
+
+    def def_width(self, p):
+        return sv.cmp("==", self.width(p), sv.add(1, self.maxc(p)))
+
+    def max_fact(self, p, i):
+        """relational contract of the row maximum (C05 clause `width`): bounds, and an upper bound of every row's (capped) count"""
+        m = self.maxc(p)
+        return _and(sv.cmp(">=", m, 0), sv.cmp("<=", m, sv.maxv(self.Nmax, 0)),
+                    sv.implies(_in(0, i, self.N), sv.cmp("<=", sv.minv(self.cnf(p, i), self.Nmax), m)))
+
+    def wellformed(self, p, i, t):
+        """precondition on the file: every particle of every record lists at least one neighbour, listed ids are ids of the N particles"""
+        return sv.implies(_and(_in(0, p, self.T), _in(0, i, self.N)),
+                          _and(sv.cmp(">=", self.cnf(p, i), 1), sv.implies(_in(0, t, self.cnf(p, i)), _in(0, self.nbf(p, i, t), self.N))))
+
+    def pre_nl(self, n, i, t):
+        """every delivered neighbour row is well formed: 1 <= cn <= width-1, listed ids are particle indices
+        (consequence of `wellformed`, Nmax >= 1 and the definitions: lemma delivered-rows-well-formed)"""
+        cn = self.nl(n, i, 0)
+        return sv.implies(_and(_in(0, n, self.T), _in(0, i, self.N)),
+                          _and(sv.cmp(">=", cn, 1), sv.cmp("<=", cn, sv.sub(self.width(n), 1)),
+                               sv.implies(_in(0, t, cn), _in(0, self.nl(n, i, sv.add(1, t)), self.N))))
+
+    def register_facts(self, ctx):
+        """the definitions and the file preconditions as facts instantiated at every application in a query"""
+        ctx.assume(sv.cmp(">=", self.Nmax, 1))
+        z = lambda x: sv.SV(x)   # noqa: E731
+        ctx.array_fact("NL", lambda p, i, c: sv.zb(self.def_nl(z(p), z(i), z(c))))
+        ctx.array_fact("NLwidth", lambda p: sv.zb(self.def_width(z(p))))
+        ctx.array_fact("NBF", lambda p, i, t: sv.zb(self.wellformed(z(p), z(i), z(t))))
+        ctx.array_fact("CNF", lambda p, i: sv.zb(sv.and_(self.wellformed(z(p), z(i), 0), self.max_fact(z(p), z(i)))))
+
+
 class World:
     def __init__(self, ctx, d, pbc, cage, cond, fast, log_cond=False):
         self.d, self.pbc, self.cage, self.cond, self.fast = d, pbc, cage, cond, fast
@@ -124,8 +217,8 @@ class World:
             self.ppp = A.from_nested([0] * d, "int")
         ctx.state.origin[self.ppp.sid] = "self.ppp"
         if cage:
-            self.NLf = z3.Function("NL", z3.IntSort(), z3.IntSort(), z3.IntSort(), z3.IntSort())
-            self.Wf = z3.Function("NLwidth", z3.IntSort(), z3.IntSort())
+            # self.neighborlists as Dynamics.__init__ establishes it from the neighbour file (unit DynInit, cases */nbfile)
+            self.nbfile = NbFile(ctx, T, N)
         if cond:
             if log_cond:
                 self.C = ctx.array("C", (N,), "bool", origin="condition")
@@ -145,10 +238,10 @@ class World:
         return [sv.SV(f(*args)) for f in self.PBCF]
 
     def nl(self, n, i, c):
-        return sv.SV(self.NLf(sv.znum(n), sv.znum(i), sv.znum(c)))
+        return self.nbfile.nl(n, i, c)
 
     def width(self, n):
-        return sv.SV(self.Wf(sv.znum(n)))
+        return self.nbfile.width(n)
 
     def sel(self, n, i):
         if not self.cond:
@@ -162,11 +255,9 @@ class World:
         return sv.implies(_in(0, n, self.T), sv.cmp("!=", det, 0))
 
     def pre_nl(self, n, i, t):
-        """every neighbour row is well formed: 1 <= cn <= width-1, listed ids are particle indices"""
-        cn = self.nl(n, i, 0)
-        return sv.implies(_and(_in(0, n, self.T), _in(0, i, self.N)),
-                          _and(sv.cmp(">=", cn, 1), sv.cmp("<=", cn, sv.sub(self.width(n), 1)),
-                               sv.implies(_in(0, t, cn), _in(0, self.nl(n, i, sv.add(1, t)), self.N))))
+        """every neighbour row is well formed: 1 <= cn <= width-1, listed ids are particle indices — for the arrays that __init__
+        reads from a well-formed neighbour file this is the lemma `delivered-rows-well-formed` (extra_checks)"""
+        return self.nbfile.pre_nl(n, i, t)
 
     def pre_sel(self, n):
         """every origin frame has at least one selected particle"""
@@ -232,12 +323,12 @@ class World:
         return ctx.obj(RU, "Snapshots", {"nsnapshots": self.T, "snapshots": snaps})
 
     def nl_array(self, n):
-        return A.new_arr((self.N, self.width(n)), lambda idx: self.nl(n, idx[0], idx[1]), "int", frame=n)
+        return self.nbfile.nl_array(n)
 
     def neighborlists(self):
         if not self.cage:
             return Ref(cur().alloc(Content("list", ())), "list")
-        return Ref(cur().alloc(Content("list", A.SeqVal(self.T, self.nl_array))), "list")
+        return self.nbfile.neighborlists()
 
 
 def cage_row(D, nl, i, d):
@@ -309,6 +400,39 @@ def summ_cage_relative(W):
         row = _memo1(lambda j: cage_row(D, lambda jj, c: cr((jj, c)), j, d))
         return A.new_arr(RII.shape, lambda idx: A._pick(row(idx[0]), idx[1]), "float")
     return f
+
+
+def summ_read_neighbors(F, nrecords):
+    """callee contract of read_neighbors(f, nparticle, Nmax) on the neighbour-list file F (proved for the real body by C05's unit
+    read_neighbors[neighborlist], which is re-verified with this check):
+    requires  f is an open handle of the neighbour file, opened for reading, standing at a record boundary with a record left
+              (the handle's abstract position counts the records consumed: C05 `handle-advanced-by-1+nparticle`),
+              nparticle = rows per record of the file, Nmax = the cap the delivered arrays are specified for (max_neighbors);
+    ensures   a fresh int array (nparticle, 1 + MAXC(p)) holding record p = position of the handle: F.delivered(p, i, c);
+              the handle stands at record p + 1."""
+    def rn(interp, args, kwargs):
+        vals = dict(zip(["f", "nparticle", "Nmax"], args))
+        vals.update(kwargs)
+        f, npart, nmax = vals.get("f"), vals.get("nparticle"), vals.get("Nmax", 200)
+        st = cur()
+        cell = st.heap.get(f.sid) if isinstance(f, Ref) else None
+        okh = cell is not None and cell.kind == "file" and cell.data.get("mode") == "r" and cell.data.get("line_fn") is None
+        st.require(bool(okh), "call:read_neighbors:pre:f-is-a-file-handle-opened-for-reading")
+        if not okh:
+            raise sv.EngineError("read_neighbors called with something that is not a readable file handle")
+        st.require(cell.data.get("path") == NBFILE, "call:read_neighbors:pre:handle-of-the-neighbour-file")
+        st.require(not cell.data.get("closed"), "call:read_neighbors:pre:handle-open")
+        if npart is None:
+            st.require(False, "call:read_neighbors:pre:nparticle-given")
+            raise sv.EngineError("read_neighbors without nparticle")
+        st.require(sv.cmp("==", npart, F.N), "call:read_neighbors:pre:nparticle=rows-per-record")
+        st.require(sv.cmp("==", nmax, F.Nmax), "call:read_neighbors:pre:Nmax=max_neighbors")
+        pos = cell.data["pos"]
+        st.require(_in(0, pos, nrecords), "call:read_neighbors:pre:a-record-is-left-in-the-file")
+        st.heap[f.sid] = Content("file", dict(cell.data, pos=A.simp(sv.add(pos, 1))), cell.meta)
+        st.events.append(("store", f.sid, st.where, list(st.pc)))
+        return A.new_arr((F.N, A.simp(sv.add(1, F.maxc(pos)))), lambda idx: F.delivered(pos, idx[0], idx[1]), "int")
+    return rn
 
 
 # ------------------------------------------------------------------------------------------------------
@@ -392,9 +516,24 @@ def wrapped_equals_unwrapped():
     return obs
 
 
+def nbfile_lemmas():
+    """delivered-rows-well-formed: for a well-formed neighbour file (every particle of every record lists >= 1 id, listed ids are ids
+    of the N particles) and a cap max_neighbors >= 1, every row of every array that read_neighbors delivers — i.e. of every
+    self.neighborlists[n] as __init__ establishes it — satisfies the precondition of cage_relative: 1 <= cn <= width - 1 and the
+    first cn entries are particle indices.  This is the fact `pre_nl` that the relaxation / sq4 units use by instances."""
+    class _C:
+        int = staticmethod(sv.integer)
+    T, N = sv.integer("T"), sv.integer("N")
+    F = NbFile(_C, T, N)
+    p, i, t = sv.integer("p"), sv.integer("i"), sv.integer("t")
+    t1 = sv.add(1, t)
+    hyp = _and(sv.cmp(">=", F.Nmax, 1), F.def_nl(p, i, 0), F.def_nl(p, i, t1), F.def_width(p), F.wellformed(p, i, t), F.max_fact(p, i))
+    return [("lemma:delivered-rows-well-formed(file-well-formed=>precondition-of-cage_relative)", sv.implies(hyp, F.pre_nl(p, i, t)))]
+
+
 def extra_checks(tier, seed, repo):
     from pyvc.vc import prove_lemmas
-    return {"obligations": prove_lemmas("C06", lemmas()) + wrapped_equals_unwrapped()}
+    return {"obligations": prove_lemmas("C06", lemmas() + nbfile_lemmas()) + wrapped_equals_unwrapped()}
 
 
 # ------------------------------------------------------------------------------------------------------
@@ -603,11 +742,12 @@ class _Init(Unit):
     cls = None
 
     def cases(self):
-        return [f"d={d}/{w}" for d in (2, 3) for w in ("xu+x", "xu-only", "x-only")]
+        return [f"d={d}/{w}{nb}" for d in (2, 3) for w in ("xu+x", "xu-only", "x-only") for nb in ("", "/nbfile")]
 
     def setup(self, ctx, case):
         d = int(case[2])
         which = case.split("/")[1]
+        nbfile = case.endswith("/nbfile")
         T, N = ctx.int("T"), ctx.int("N")
         ctx.assume(T >= 2)
         ctx.assume(N >= 1)
@@ -637,12 +777,26 @@ class _Init(Unit):
         # lazily evaluated elements (self.time is built from a comprehension over the snapshot list) are read inside the range
         ctx.assume(_in(0, k, sv.sub(T, 1)))
         ctx.assume(_in(0, i, N))
-        inp = dict(d=d, which=which, T=T, T2=T2, N=N, xu=xu, x=x, TS=TS, PT=PT, p=p, ppp=ppp, dia=dia, a=a, dt=dt, self_=self_, k=k, i=i)
-        return [self_], dict(xu_snapshots=xu, x_snapshots=x, dt=dt, ppp=ppp, diameters=ctx.pydict(dia), a=a, cal_type="slow", neighborfile="", max_neighbors=30), inp
+        inp = dict(d=d, which=which, T=T, T2=T2, N=N, xu=xu, x=x, TS=TS, PT=PT, p=p, ppp=ppp, dia=dia, a=a, dt=dt, self_=self_, k=k, i=i, nbfile=nbfile)
+        maxnb = 30
+        if nbfile:
+            # the neighbour file of this trajectory: one record per frame (at least T records), N rows per record
+            F = NbFile(ctx, T, N)
+            F.register_facts(ctx)
+            maxnb = F.Nmax
+            TF = ctx.int("records_in_file")
+            ctx.assume(sv.cmp(">=", TF, T))
+            ctx.interp.summaries = {RN_KEY: summ_read_neighbors(F, TF)}
+            inp.update(F=F, n=ctx.int("n"), c=ctx.int("c"))
+        return [self_], dict(xu_snapshots=xu, x_snapshots=x, dt=dt, ppp=ppp, diameters=ctx.pydict(dia), a=a, cal_type="slow",
+                             neighborfile=NBFILE if nbfile else "", max_neighbors=maxnb), inp
 
     def clause_names(self, case):
-        return ["ndim=len(ppp)", "dynamics-use-xu-when-given-else-x", "PBC-removal-iff-only-wrapped-coordinates", "x-kept-for-S4-only-when-both-given",
-                "time[k]=(ts[k+1]-ts[0])*dt", "diameters[i]=map[type_i]", "a2_cuts[i]=(a*diameter_i)^2", "no-neighbour-lists-without-file"]
+        names = ["ndim=len(ppp)", "dynamics-use-xu-when-given-else-x", "PBC-removal-iff-only-wrapped-coordinates", "x-kept-for-S4-only-when-both-given",
+                 "time[k]=(ts[k+1]-ts[0])*dt", "diameters[i]=map[type_i]", "a2_cuts[i]=(a*diameter_i)^2"]
+        if case.endswith("/nbfile"):
+            return names + self.file_clauses
+        return names + ["no-neighbour-lists-without-file"]
 
     def ensures(self, ctx, case, inp, out):
         d, which, T, N = inp["d"], inp["which"], inp["T"], inp["N"]
@@ -669,7 +823,33 @@ class _Init(Unit):
         oka = isinstance(a2, A.Arr) and a2.ndim == 1 and A.dim_eq_syntactic(a2.shape[0], N)
         g_a2 = sv.implies(_in(0, i, N), sv.cmp("==", a2.get((i,)), sv.mul(sv.mul(inp["a"], want), sv.mul(inp["a"], want)))) if oka else False
         yield "a2_cuts[i]=(a*diameter_i)^2", g_a2
-        yield "no-neighbour-lists-without-file", self.no_lists(o.get("neighborlists"))
+        if inp["nbfile"]:
+            yield from self.file_ensures(inp, out, o.get("neighborlists"))
+        else:
+            yield "no-neighbour-lists-without-file", self.no_lists(o.get("neighborlists"))
+
+    @staticmethod
+    def _handles(out):
+        """(open events, close events, opaque read handles) of the final state"""
+        ev = out.state.trace
+        hs = [c.data for c in out.state.heap.values() if c.kind == "file" and isinstance(c.data, dict) and c.data.get("mode") == "r"]
+        return hs
+
+    def handle_clause(self, out, nread):
+        """exactly one handle exists, it belongs to the neighbour file, `nread` records were consumed from it, it is closed"""
+        hs = self._handles(out)
+        if len(hs) != 1 or hs[0].get("path") != NBFILE or not hs[0].get("closed"):
+            return False
+        return sv.cmp("==", hs[0]["pos"], nread)
+
+    @staticmethod
+    def same_as_spec(arr, F, n, inp):
+        """arr is the delivered array of record n: shape (N, width(n)), int, element (i, c) = nl(n, i, c) at an arbitrary (i, c)"""
+        if not (isinstance(arr, A.Arr) and arr.ndim == 2 and arr.dtype == "int"):
+            return False
+        i, c = inp["i"], inp["c"]
+        return _and(sv.cmp("==", arr.shape[0], F.N), sv.cmp("==", arr.shape[1], F.width(n)),
+                    sv.implies(_and(_in(0, i, F.N), _in(0, c, F.width(n))), sv.cmp("==", arr.get((i, c)), F.nl(n, i, c))))
 
     def raises(self, ctx, case, inp, out):
         if out.exc != "ValueError":
@@ -687,6 +867,18 @@ class _Init(Unit):
 class DynInit(_Init):
     qualname = "Dynamics.__init__"
     cls = "Dynamics"
+    file_clauses = ["neighbour-lists:one-per-frame", "neighbour-lists[n]=record-n-of-the-file-as-read_neighbors-delivers-it(Nmax=max_neighbors)",
+                    "neighbour-file:one-handle/T-records-read-in-file-order/closed"]
+
+    def file_ensures(self, inp, out, v):
+        F, T, n = inp["F"], inp["T"], inp["n"]
+        ok = isinstance(v, Ref) and v.kind == "list" and isinstance(v.content, A.SeqVal)
+        yield self.file_clauses[0], (sv.cmp("==", v.content.length, T) if ok else False)
+        if ok:
+            yield self.file_clauses[1], sv.implies(_in(0, n, T), self.same_as_spec(v.content.fn(n), F, n, inp))
+        else:
+            yield self.file_clauses[1], False
+        yield self.file_clauses[2], self.handle_clause(out, T)
 
     def no_lists(self, v):
         return isinstance(v, Ref) and v.kind == "list" and not isinstance(v.content, A.SeqVal) and len(v.content) == 0
@@ -695,6 +887,11 @@ class DynInit(_Init):
 class LogInit(_Init):
     qualname = "LogDynamics.__init__"
     cls = "LogDynamics"
+    file_clauses = ["neighbour-list=record-0-of-the-file-as-read_neighbors-delivers-it(Nmax=max_neighbors)", "neighbour-file:one-handle/one-record-read/closed"]
+
+    def file_ensures(self, inp, out, v):
+        yield self.file_clauses[0], self.same_as_spec(v, inp["F"], 0, inp)
+        yield self.file_clauses[1], self.handle_clause(out, 1)
 
     def no_lists(self, v):
         # the log variant stores an all-zero array, which relaxation() tests with .any()
@@ -714,6 +911,8 @@ def _replay_init(clsname, case, seed):
     import numpy as np
     d = int(case[2])
     which = case.split("/")[1]
+    if case.endswith("/nbfile"):
+        return _replay_init_nbfile(clsname, case, seed)
     Dm = importlib.import_module(MOD)
     cls = getattr(Dm, clsname)
     rng = np.random.default_rng(seed + 99)
@@ -764,6 +963,107 @@ def _replay_init(clsname, case, seed):
         except ValueError:
             pass
     return {"ran": True, "failed": False, "searched": tried, "detail": "real __init__ agrees with the contract on every seeded input"}
+
+
+def _delivered_ref(rows, N, Nmax):
+    """what read_neighbors is documented to deliver for one record: rows = {particle index: [listed zero-based ids]}"""
+    import numpy as np
+    width = 1 + max(min(len(rows[i]), Nmax) for i in range(N))
+    out = np.zeros((N, width), dtype=np.int64)
+    for i in range(N):
+        c = min(len(rows[i]), Nmax)
+        out[i, 0] = c
+        for t in range(c):
+            out[i, 1 + t] = rows[i][t]
+    return out
+
+
+def _replay_init_nbfile(clsname, case, seed):
+    """the neighbour-file branch of __init__ on real files: records with rows in shuffled id order, unequal coordination
+    numbers, caps below the longest row, more records in the file than frames; one tracked handle"""
+    import builtins
+    import importlib
+    import os
+    import shutil
+    import tempfile
+
+    import numpy as np
+    d = int(case[2])
+    which = case.split("/")[1]
+    Dm = importlib.import_module(MOD)
+    cls = getattr(Dm, clsname)
+    rng = np.random.default_rng(seed + 4099)
+    tmpdir = tempfile.mkdtemp(prefix="pyvc-c06-init-")
+    tried = 0
+    handles = []
+
+    def tracking_open(*a, **k):
+        h = builtins.open(*a, **k)
+        handles.append(h)
+        return h
+    try:
+        Dm.open = tracking_open
+        for rep in range(60):
+            T, N = int(rng.integers(2, 6)), int(rng.integers(2, 7))
+            w = _random_world(rng, d, False, False, False, T, N, "log" if clsname == "LogDynamics" else "linear")
+            su = _mk_snapshots(w["pos"], w["ts"], w["ptype"], None)
+            sx = _mk_snapshots(w["pos"] + 0.5, w["ts"], w["ptype"], None)
+            ppp = rng.integers(0, 2, size=d)
+            if which == "x-only" and not ppp.any():
+                ppp[0] = 1
+            TF = T + int(rng.integers(0, 3))
+            Nmax = int(rng.choice([1, 2, 3, 30]))
+            recs = []
+            path = os.path.join(tmpdir, f"nl{rep}.dat")
+            with builtins.open(path, "w", encoding="utf-8") as f:
+                for p_ in range(TF):
+                    f.write("id     cn     neighborlist\n")
+                    rows = {}
+                    for i in rng.permutation(N):
+                        i = int(i)
+                        cn = int(rng.integers(1, min(N - 1, 5) + 1))
+                        rows[i] = [int(x) for x in rng.choice([j for j in range(N) if j != i], size=cn, replace=False)]
+                        f.write(" ".join([str(i + 1), str(cn)] + [str(j + 1) for j in rows[i]]) + "\n")
+                    recs.append(rows)
+            del handles[:]
+            kw = dict(xu_snapshots=su if which != "x-only" else None, x_snapshots=sx if which != "xu-only" else None, dt=w["dt"], ppp=ppp,
+                      diameters=w["diameters"], a=w["a"], cal_type="slow", neighborfile=path, max_neighbors=Nmax)
+            tried += 1
+            inputs = {"T": T, "N": N, "records_in_file": TF, "max_neighbors": Nmax, "file_records(zero-based ids)": [{str(k): v for k, v in r.items()} for r in recs]}
+            try:
+                o = cls(**kw)
+            except Exception as e:  # noqa
+                return {"ran": True, "failed": True, "searched": tried, "inputs": inputs, "detail": f"raises {type(e).__name__}: {e}"}
+            bad = None
+            want = [_delivered_ref(recs[n], N, Nmax) for n in range(T)]
+            if clsname == "Dynamics":
+                got = o.neighborlists
+                if not isinstance(got, list) or len(got) != T:
+                    bad = f"neighborlists has {len(got) if hasattr(got, '__len__') else '?'} entries for {T} frames"
+                else:
+                    for n in range(T):
+                        g = np.asarray(got[n])
+                        if g.shape != want[n].shape or not np.array_equal(g, want[n]) or not np.issubdtype(g.dtype, np.integer):
+                            bad = f"neighborlists[{n}] = {g.tolist()} (dtype {g.dtype}); record {n} of the file delivers {want[n].tolist()}"
+                            break
+            else:
+                g = np.asarray(o.neighborlists)
+                if g.shape != want[0].shape or not np.array_equal(g, want[0]) or not np.issubdtype(g.dtype, np.integer):
+                    bad = f"neighborlists = {g.tolist()} (dtype {g.dtype}); record 0 of the file delivers {want[0].tolist()}"
+            if bad is None and (len(handles) != 1 or not handles[0].closed or os.path.abspath(handles[0].name) != os.path.abspath(path)):
+                bad = f"{len(handles)} handle(s) opened, closed: {[h.closed for h in handles]}"
+            if bad:
+                return {"ran": True, "failed": True, "searched": tried, "from_model": False, "inputs": inputs, "detail": bad}
+    finally:
+        if "open" in vars(Dm):
+            del Dm.open
+        for h in handles:
+            try:
+                h.close()
+            except Exception:  # noqa
+                pass
+        shutil.rmtree(tmpdir, ignore_errors=True)
+    return {"ran": True, "failed": False, "searched": tried, "detail": "real __init__ stores what the file's records deliver, frame by frame, through one handle that is closed"}
 
 
 # ------------------------------------------------------------------------------------------------------
